@@ -225,7 +225,7 @@ def sdesc_local(B, l, depth=0):
                 return sdesc_operand(B, t['args'][0], depth)
             return '%s(%s)' % (c, ','.join(sdesc_operand(B, a, depth + 1) for a in t['args'][:3]))
         return sdesc_rv(B, d[4], depth)
-    if PHI and 2 <= len(ds) <= 3 and depth <= 2 and all(d[0] in ('call', 'assign') for d in ds):
+    if PHI and 2 <= len(ds) <= 6 and depth <= 2 and all(d[0] in ('call', 'assign') for d in ds):
         # (only for the frozen-skeleton tables) a variable assigned on a few paths is described by the set of its definitions
         alts = set()
         for d in ds:
